@@ -246,7 +246,7 @@ func propC08(c *ctx) error {
 		}
 	}
 	// fragments that include themselves (directly, mutually, through replace, in a range): must end with an error
-	for _, src := range selfIncluding {
+	for si, src := range selfIncluding {
 		rc := &renderCase{Files: [][2]string{{"t", src}}, Tpl: "t", Data: vMap(kv{"xs", vIntSlice(1)}).j}
 		var out renderOut
 		guard("Execute (self-including fragment)", src, func() { out = implRender(rc, -1) })
@@ -254,7 +254,7 @@ func propC08(c *ctx) error {
 		if out.St != "err" {
 			res.violate(rc.toJ(), "error", J{"st": out.St}, "a self-including fragment does not end with an error")
 		}
-		if c.d != nil {
+		if c.d != nil && (si < 5 || si%4 == 0 || !c.quick()) {
 			if _, _, err := compareRender(c, rc, true); err != nil {
 				return err
 			}
@@ -263,12 +263,36 @@ func propC08(c *ctx) error {
 	return nil
 }
 
-var selfIncluding = []string{
-	`<b :define="f"><i :insert="f"></i></b><p :insert="f"></p>`,
-	`<b :define="f"><i :replace="g"></i></b><b :define="g"><i :insert="f"></i></b><p :replace="f"></p>`,
-	`<b :define="f"><i :range="_, x : xs" :insert="f"></i></b><p :insert="f"></p>`,
-	`<p :insert="t"></p>`,
-}
+var selfIncluding = func() []string {
+	out := []string{
+		`<b :define="f"><i :insert="f"></i></b><p :insert="f"></p>`,
+		`<b :define="f"><i :replace="g"></i></b><b :define="g"><i :insert="f"></i></b><p :replace="f"></p>`,
+		`<b :define="f"><i :range="_, x : xs" :insert="f"></i></b><p :insert="f"></p>`,
+		`<p :insert="t"></p>`,
+		`<p :replace="t"></p>`,
+	}
+	// every cycle of 1..3 fragments in which each hop is an insert or a replace, the hopping element being an ordinary
+	// tag or a block tag, alone or together with a range / a true condition / a with
+	hops := []string{"insert", "replace"}
+	extras := []string{``, ` :range="_, x : xs"`, ` :if="${true}"`, ` :with="w := ${1}"`}
+	for n := 1; n <= 3; n++ {
+		for mask := 0; mask < 1<<n; mask++ {
+			for ei, extra := range extras {
+				if (n == 3 && ei > 0) || (n == 2 && ei%2 != mask%2) {
+					continue // (rendering down to the nesting bound is slow in the engine: keep the list short)
+				}
+				var sb strings.Builder
+				for k := 0; k < n; k++ {
+					tag := []string{"i", "t:block"}[(k+mask+ei)%2]
+					fmt.Fprintf(&sb, `<b :define="c%d"><%s :%s="c%d"%s>x</%s></b>`, k, tag, hops[(mask>>k)&1], (k+1)%n, extra, tag)
+				}
+				sb.WriteString(`<p :` + hops[mask&1] + `="c0">x</p>`)
+				out = append(out, sb.String())
+			}
+		}
+	}
+	return out
+}()
 
 // probeSelf is run in a child process: renders the self-including templates; a fatal stack overflow kills only it.
 func probeSelf() {
